@@ -1502,7 +1502,7 @@ Qed.
 
 (** Without a forwarding plugin no option is ever put into the query OPT. *)
 Lemma upstream_no_options_without_plugin ups clock xp wp mp truncate packs depth prog w q udp ca :
-  (forall i, match wp i with WCache _ | WRedirect _ => True | _ => False end) ->
+  (forall i, match wp i with WCache _ _ | WRedirect _ => True | _ => False end) ->
   w_log w = [] ->
   forall u m, In (u, m) (w_log (fst (handle truncate packs (entry ups clock xp wp mp depth prog) w q udp ca))) ->
   exists o, opts_of (m_extra m) = [o] /\ o_opts o = [].
@@ -1716,38 +1716,28 @@ Section C03Inv.
   Lemma reject_x_inv03 rc x s : inv03 x s -> inv03 x (reject_x rc s).
   Proof. intro H. unfold reject_x. apply set_fresh_inv03; try reflexivity. exact H. Qed.
 
-  Lemma cache_inv03 inst k : okk inv03 k -> okk inv03 (cache_exec clock inst k).
+  Lemma cache_inv03 inst lazy k : okk inv03 k -> okk inv03 (cache_exec clock inst lazy k).
   Proof.
-    intros Hk x [c w] Hs. unfold cache_exec.
-    destruct (msg_key (c_query c)) as [key|] eqn:Ek; [|apply Hk; exact Hs].
-    pose proof Hs as ((S1 & S2 & St & S3 & S4) & S5). cbn [fst snd] in *.
-    pose proof (msg_key_single _ _ _ Ek S2) as Ekey.
-    set (c1 := match get_cached clock key (w_store w inst) (w_next w) with
-               | Some r => set_response c (w_next w) (with_id r (m_id (c_query c)))
-               | None => c end).
-    assert (H1 : inv03 x (c1, bump w)).
-    { subst c1. destruct (get_cached clock key (w_store w inst) (w_next w)) as [r|] eqn:Eg;
-        [|revert Hs; apply inv03_frame; reflexivity].
-      unfold get_cached in Eg. destruct (lookup key (w_store w inst)) as [v|] eqn:El; [|discriminate].
-      destruct (clock (w_next w)) as [d|]; [|discriminate]. inversion Eg; subst r. clear Eg.
-      apply lookup_in in El. destruct (S5 _ _ _ El) as (V1 & a & cc & dd & qu & V2 & V3 & V4).
+    intro Hk. refine (cache_Icw idx IC03 store_ok IC03_rid _ clock _ _ inst lazy k Hk).
+    - intros w Hw. exact Hw.
+    - (* a hit: the entry answers the question its key was built from, which is the current one *)
+      intros x c w rid i key v f Hc Hw Ek El. pose proof Hc as (S1 & S2 & St & S3 & S4).
+      pose proof (msg_key_single _ _ _ Ek S2) as Ekey.
+      apply lookup_in in El. destruct (Hw _ _ _ El) as (V1 & a & cc & dd & qu & V2 & V3 & V4).
       assert (Equ : qu = mkqu (x_name x) (x_ty x) cl0).
       { rewrite V2 in Ekey. apply CacheKey.key_of_inj in Ekey; [|exact V4|split; assumption].
         destruct Ekey as (_ & _ & _ & N1 & N2 & N3). destruct qu; cbn in *. congruence. }
-      change (inv03 x (set_fresh (c, w) (with_id (subtract_ttl d v) (m_id (c_query c))))).
-      apply set_fresh_inv03; cbn; try assumption; [reflexivity|]. rewrite V3, S2, Equ. reflexivity. }
-    specialize (Hk x _ H1). destruct (k (c1, bump w)) as [[t [c2 w2]] err]. unfold ost in *. cbn [fst snd] in *.
-    destruct (c_resp c2) as [r|] eqn:Er; [|exact Hk].
-    match goal with |- context [if ?b then _ else _] => destruct b eqn:Eb end; [|exact Hk].
-    destruct Hk as ((K1 & K2 & Kt & K3 & K4) & K5). cbn [fst snd] in *. split; [split5; assumption|]. cbn [snd].
-    apply andb_true_iff in Eb as [_ Ea]. unfold save. destruct (0 <? save_ttl r); [|exact K5].
-    intros i k0 v. unfold put_store. cbn. destruct (i =? inst) eqn:Ei; [|apply K5].
-    intros [Hin|Hin]; [|apply N.eqb_eq in Ei; subst; eapply K5; exact Hin].
-    inversion Hin; subst k0 v. destruct (K3 r Er) as (R2 & _). cbn. split; [exact R2|].
-    unfold answers_question in Ea. rewrite K2 in Ea.
-    destruct (m_question r) as [|qa [|]] eqn:Eqr; try discriminate. apply question_eqb_true in Ea. subst qa.
-    exists (m_ad (c_query c)), (m_cd (c_query c)), (msg_do (c_query c)), (mkqu (x_name x) (x_ty x) cl0).
-    split; [exact Ekey|]. split; [reflexivity | split; assumption].
+      apply IC03_set_response; [|exact Hc]. eapply resp_ok_query; [exact Hc | reflexivity | exact V1 |].
+      cbn. rewrite V3, S2, Equ. reflexivity.
+    - (* a store: the response carries the question of the query the key was built from *)
+      intros x c c2 w2 i key r (S1 & S2 & St & _ & _) (K1 & K2 & Kt & K3 & K4) Ek Hw Er Ea.
+      pose proof (msg_key_single _ _ _ Ek S2) as Ekey.
+      intros i0 k0 v Hin. apply save_store_in in Hin as [Hin | (_ & -> & ->)]; [eapply Hw; exact Hin|].
+      destruct (K3 r Er) as (R2 & _). cbn. split; [exact R2|].
+      unfold answers_question in Ea. rewrite K2 in Ea.
+      destruct (m_question r) as [|qa [|]] eqn:Eqr; try discriminate. apply question_eqb_true in Ea. subst qa.
+      exists (m_ad (c_query c)), (m_cd (c_query c)), (msg_do (c_query c)), (mkqu (x_name x) (x_ty x) cl0).
+      split; [exact Ekey|]. split; [reflexivity | split; assumption].
   Qed.
 
   Lemma set_q0_name_fields q n qu t :
@@ -1913,6 +1903,15 @@ Section Meta.
     - apply (okk_ext invM); [apply invM_iff | exact Hk].
   Qed.
 
+  Lemma cache_invM inst lazy k : okk invM k -> okk invM (cache_exec clock inst lazy k).
+  Proof.
+    intro Hk. apply (okk_ext (Icw ICM (fun _ => True))); [intros; symmetry; apply invM_iff|].
+    refine (cache_Icw _ ICM (fun _ => True) _ _ clock _ _ inst lazy k _); try (intros; exact I).
+    - intros x0 c rid Hc. exact Hc.
+    - intros x c w rid i key v f Hc _ _ _. unfold ICM. rewrite set_response_meta. exact Hc.
+    - apply (okk_ext invM); [apply invM_iff | exact Hk].
+  Qed.
+
   Lemma exec_x_invM runsub p m s :
     (forall rs, okk invM (runsub rs)) -> invM m s -> invM m (fst (exec_x ups runsub p s)).
   Proof.
@@ -1932,11 +1931,7 @@ Section Meta.
   Lemma wrap_w_invM w k : okk invM k -> okk invM (wrap_w clock (wp w) k).
   Proof.
     intros Hk m [c wd] Hs. unfold invM in *. cbn [fst] in Hs. destruct (wp w); cbn [wrap_w].
-    - unfold cache_exec. destruct (msg_key (c_query c)) as [key|]; [|apply Hk; exact Hs].
-      match goal with |- context [k (?c1, bump wd)] =>
-        assert (H1 : meta c1 = m) by (destruct (get_cached clock key (w_store wd inst) (w_next wd)); [rewrite set_response_meta|]; exact Hs);
-        specialize (Hk m (c1, bump wd) H1); destruct (k (c1, bump wd)) as [[t [c2 w2]] err] end.
-      exact Hk.
+    - apply cache_invM; [exact Hk | exact Hs].
     - unfold redirect_exec.
       destruct (m_question (c_query c)) as [|qu [|]]; try (apply Hk; exact Hs).
       destruct (negb (qclass qu =? class_inet)); [apply Hk; exact Hs|].
